@@ -79,8 +79,8 @@ Fixpoint cont_stmt (c : flag) (k : nat) (u : bool) (st : stmt) : block * nat * b
   | STry body hs orelse final =>     (* visit_Try: body, orelse, finalbody, handlers (in that order) *)
       let '(body', k1, h1) := cont_block c k u false body in
       let '(orelse', k2, h2) := cont_block c k1 (u || h1) false orelse in
-      (* the else clause is skipped once a continue (or lowered break) seen so far in this loop became a flag *)
-      let orelse'' := if negb (is_nil orelse') && (u || h1) then one (SIf (CNot c) orelse' BNil) else orelse' in
+      (* the else clause is skipped once a continue (or lowered break) of the body became a flag *)
+      let orelse'' := if negb (is_nil orelse') && h1 then one (SIf (CNot c) orelse' BNil) else orelse' in
       let '(final', k3, h3) := cont_block c k2 (u || h1 || h2) false final in
       let '(hs', k4, h4) := cont_blocks c k3 (u || h1 || h2 || h3) hs in
       (one (STry body' hs' orelse'' final'), k4, h1 || h2 || h3 || h4)
@@ -171,7 +171,7 @@ Fixpoint ret_stmt (used : bool) (st : stmt) : block * bool :=
   | STry body hs orelse final =>
       let '(body', h1) := ret_block false false body in
       let '(orelse', h2) := ret_block false false orelse in
-      let orelse'' := if negb (is_nil orelse') && (used || h1) then one (SIf (CNot rflag) orelse' BNil) else orelse' in
+      let orelse'' := if negb (is_nil orelse') && h1 then one (SIf (CNot rflag) orelse' BNil) else orelse' in
       let '(final', h3) := ret_block false false final in
       let '(hs', h4) := ret_blocks hs in
       (one (STry body' hs' orelse'' final'), h1 || h2 || h3 || h4)
